@@ -68,6 +68,18 @@ def _oid(clause, family):
 
 
 def info(prop):
+    from . import d05_extrapolate_vc
+    d = _info_bounded(prop)
+    h = d05_extrapolate_vc.deductive_info()
+    d["functions"] = h["functions"] + d["functions"]
+    d["stubs"] = h["stubs"] + d.get("stubs", [])
+    d["assumptions"] = h["assumptions"] + d.get("assumptions", [])
+    d["explanation"] = h["explanation"] + d.get("explanation", "")
+    d["trusted_base"] = ["z3 5.1", "vf/pyvc.py + vf/seq.py"] + d.get("trusted_base", [])
+    return d
+
+
+def _info_bounded(prop):
     return {
         "level": "other",
         "functions": ["gaddlemaps/_manager.py::Manager.extrapolate_system",
@@ -886,7 +898,8 @@ def task_guards(seed):
 def tasks(prop, tier, seed):
     thorough = tier == "thorough"
     maxlen = 5 if thorough else 3
-    t = []
+    from . import d05_extrapolate_vc
+    t = list(d05_extrapolate_vc.deductive_tasks(prop, tier, seed))
     for first in "PQRW":
         for second in (("", "P", "Q", "R", "W") if thorough else (None,)):
             if first == "W" and second == "":
@@ -905,6 +918,20 @@ def tasks(prop, tier, seed):
 
 
 def replay(prop, cex):
+    if cex.get("kind") == "vc":
+        # a failed proof obligation of the loop: search the bounded scope of the real code for a failing run
+        for name, fn, args, _lim in tasks(prop, "quick", 0)[1:9]:
+            try:
+                obs = fn(*args)
+            except Exception:
+                continue
+            for o in obs:
+                if o.get("status") == "refuted" and o.get("kind") != "guard" and o.get("cex"):
+                    r = replay(prop, o["cex"])
+                    if r and r.get("reproduced"):
+                        r["note"] = f"failed obligation {cex.get('obligation') or cex.get('signature')} manifests on the real Manager.extrapolate_system"
+                        return r
+        return {"reproduced": False, "inputs": cex, "note": "no failing run found in the bounded scope"}
     np.random.seed(2024)
     clause = cex.get("clause")
     d = tempfile.mkdtemp(prefix="c05r_")
